@@ -454,6 +454,23 @@ func runSess(cfg *config) {
 			d.exec("SELECT * FROM t1")
 		}, nil)
 	}
+	// scripted: more databases than any chunk a directory listing could be read in (tenth seeded round: a listing
+	// read in two chunks of 64 entries - SHOW DATABASES and start-up recovery stopped at 128 databases)
+	run(func(d *sdrv, r *hx.Rng) {
+		for i := 0; i < 140; i++ {
+			d.exec(fmt.Sprintf("CREATE DATABASE db%03d", i))
+		}
+		d.exec("SHOW DATABASES")
+		d.exec("USE db135")
+		d.exec("CREATE TABLE t1 (a int, b varchar(255))")
+		d.exec("INSERT INTO t1 VALUES (1, 'in the 136th database')")
+		d.crash()
+		d.exec("SHOW DATABASES")
+		d.exec("USE db135")
+		d.exec("SELECT * FROM t1")
+		d.exec("USE db003")
+		d.exec("SHOW DATABASES")
+	}, nil)
 	// scripted: database names outside ASCII written WITHOUT quotes (identifiers of letters)
 	run(func(d *sdrv, r *hx.Rng) {
 		for _, q := range []string{"CREATE DATABASE é", "USE é", "CREATE DATABASE É", "CREATE TABLE größe (a int)", "INSERT INTO größe VALUES (1)", "USE É",
